@@ -57,9 +57,11 @@ type Session struct {
 	Mutate     func(tok interface{})              // if set: every token argument is modified in place AFTER it was logged
 	NestAt     int                                // > 0: at this call the action runs ANOTHER parser of the same package to completion (Nested)
 	Nested     func()                             // installed by the harness
-	TokMethods func(tok interface{})              // if set: the convenience methods of every token argument are called (IDValue, Int64Value, ...)
+	TokMethods func(tok interface{}) string       // if set: the convenience methods of every token argument are called (IDValue, Int64Value, ...)
 	Problems   []string                           // invariant violations noticed at call time
 	AfterFault int                                // calls made after the fault fired (must stay 0)
+	MethodCalls  int    // token arguments whose convenience methods were called in the current operation
+	MethodDigest uint64 // running digest of what they returned
 	Deep       bool                               // RenderVal renders a node again from the values it holds instead of returning the text made when it was built
 }
 
@@ -68,6 +70,7 @@ func (s *Session) Begin(faultCall int, faultKind string) {
 	s.NestAt = 0
 	s.Nested = nil
 	s.TokMethods = nil
+	s.MethodCalls, s.MethodDigest = 0, 14695981039346656037
 	s.SwapAt = 0
 	s.SetCtx = nil
 	s.Mutate = nil
@@ -162,7 +165,10 @@ func (s *Session) call(ctx interface{}, withCtx bool, alt int, args []interface{
 			}
 			if _, isNode := a.(*Node); !isNode {
 				if str, ok := s.Render(a); ok && strings.HasPrefix(str, "T<") {
-					s.TokMethods(a)
+					s.MethodCalls++
+					for _, c := range []byte(s.TokMethods(a)) {
+						s.MethodDigest = (s.MethodDigest ^ uint64(c)) * 1099511628211
+					}
 				}
 			}
 		}
